@@ -1922,6 +1922,12 @@ func (in *inliner) exprBodyOf(ce *inlCallee) ast.Expr {
 					return true
 				}
 			}
+			// a standard-library function that only computes a value from its arguments (strconv.FormatUint, strings.ToLower, …)
+			if se, isSel := ast.Unparen(x.Fun).(*ast.SelectorExpr); isSel {
+				if fo, isFn := in.p.TypesInfo.Uses[se.Sel].(*types.Func); isFn && fo.Pkg() != nil && isPureStdValueCall(fo.FullName()) {
+					return true
+				}
+			}
 			pure = false
 		case *ast.FuncLit, *ast.IndexExpr, *ast.SliceExpr, *ast.TypeAssertExpr, *ast.CompositeLit:
 			pure = false
